@@ -220,7 +220,29 @@ def rule_nceguard(ctx):
             yield o
 
 
+def rule_framemap(ctx):
+    """Shared with C17.FRAMEMAP: a segment's frames are [round(start), round(end)) with one rounding for both ends, so
+    two same-label pieces of a cut segment tile exactly the frames of the uncut one."""
+    from . import c17
+
+    for o in c17.rule_framemap(ctx):
+        o.rule = "C12.FRAMEMAP"
+        yield o
+
+
+def rule_nceform_shared(ctx):
+    """Shared with C16.NCEFORM: the NCE normalisers come from the contingency table of the sampled frames (number of
+    distinct frame labels), not from the number of rows of the annotation, which a same-label cut changes."""
+    from . import c16
+
+    for o in c16.rule_nceform(ctx):
+        o.rule = "C12.NCEFORM"
+        yield o
+
+
 RULES = [
+    ("C12.FRAMEMAP", 4, rule_framemap),
+    ("C12.NCEFORM", 5, rule_nceform_shared),
     ("C12.NCEGUARD", 2, rule_nceguard),
     ("C12.PIPELINE", 20, rule_pipeline),
     ("C12.WEIGHTNORM", 2, rule_weightnorm),
